@@ -115,7 +115,7 @@ BASIC = [('rep_valid', 'rep_valid'), ('R_pos', 'R > 0'), ('ref_ts', 'tsref >= 1'
 # ----------------------------------------------------------------------------- reference / index search
 MEDIA_DURATION_USING_TIMESCALE = Contract(
     key=f'{REF}:StreamTimingReference.media_duration_using_timescale',
-    props=['C02', 'C01', 'C06'],
+    props=['C02', 'C01', 'C06', 'C09'],
     env=lambda w: {'self': ref_obj(w), 'timescale': w['ts']},
     requires=[('ts_pos', 'self.timescale >= 1'), ('same_ts', 'timescale == ts')],
     defs=['R == (Rref * ts) // tsref'],
@@ -127,7 +127,7 @@ MEDIA_DURATION_USING_TIMESCALE = Contract(
 
 GET_SEGMENT_INDEX = Contract(
     key=f'{REP}:Representation.get_segment_index',
-    props=['C02', 'C01', 'C12'],
+    props=['C02', 'C01', 'C12', 'C09', 'C16'],
     env=lambda w: {'self': rep_obj(w), 'timecode': z3.Int('timecode')},
     requires=BASIC + [('tc_nonneg', 'timecode >= 0')],
     loops={0: Loop(
@@ -155,7 +155,7 @@ GET_SEGMENT_INDEX = Contract(
 
 CALC_SEGMENT_FROM_TIMECODE = Contract(
     key=f'{REP}:Representation.calculate_segment_from_timecode',
-    props=['C02', 'C01'],
+    props=['C02', 'C01', 'C09', 'C16'],
     env=lambda w: {'self': rep_obj(w), 'timecode': z3.Int('timecode'), 'drift_compensate': z3.Bool('drift_compensate')},
     requires=BASIC,
     raises={'ValueError': 'timecode < 0'},
